@@ -639,6 +639,26 @@ def patch_me_future():
     init._verif = True
     common._Future.__init__ = init
 
+    class CbList(list):
+        """_Future._me_done_callbacks: the end of a delivery loop is a scheduling point (the list is reset only AFTER the loop,
+        outside the future's lock: whatever another thread appends in between is dropped with the old list)"""
+
+        def __iter__(self):
+            i = 0
+            while i < len(self):
+                x = self[i]
+                i += 1
+                yield x
+            if S is not None and me() is not None and not S.quiet and not S.aborting:
+                switch("cbs.end")
+
+    def _get(self):
+        return self.__dict__.get("_verif_cbs")
+
+    def _set(self, v):
+        self.__dict__["_verif_cbs"] = CbList(v)
+    common._Future._me_done_callbacks = property(_get, _set)
+
 
 class atomic(object):
     """with atomic(): no yield points inside (used by scenario/env code for its own bookkeeping)."""
